@@ -360,6 +360,7 @@ fn filespec_case(ctx: &mut CaseCtx) -> CaseResult {
     ];
     let t0 = flw::base_time_ns(rng);
     flw::install_virtual(t0);
+    ctl::with_ctl(|c| c.tracing = true);
     let mut planted = 0u64;
     for j in &junk {
         if j.is_empty() || j.contains('/') || !rng.chance(1, 3) {
@@ -442,9 +443,12 @@ fn filespec_case(ctx: &mut CaseCtx) -> CaseResult {
                     // cleanup thread may still be running is not part of the explored space.)
                 }
                 _ => {
-                    // plant another junk file while running
+                    // plant another junk file while running — only names outside the family:
+                    // the property quantifies over *pre-existing* directory content; a file with
+                    // a valid (higher) index appearing while the logger runs is another logger
+                    // on the same family, not directory content
                     if let Some(j) = junk.get(rng.usize(junk.len())) {
-                        if !j.is_empty() && !j.ends_with(".d") {
+                        if !j.is_empty() && !j.ends_with(".d") && cfg.names.classify(j).is_none() {
                             let p = dir.join(j);
                             if !p.exists() {
                                 let _ = std::fs::write(&p, b"junk\n");
@@ -465,6 +469,23 @@ fn filespec_case(ctx: &mut CaseCtx) -> CaseResult {
             break;
         }
     }
+    let fs_trace: Vec<String> = ctl::with_ctl(|c| {
+        c.trace
+            .iter()
+            .filter(|e| ctl::is_fs_point(&e.name) && e.name != "read_dir")
+            .map(|e| {
+                format!(
+                    "{}[{}] {}",
+                    e.name,
+                    e.thread.chars().rev().take(8).collect::<String>().chars().rev().collect::<String>(),
+                    e.p1.as_ref()
+                        .and_then(|p| p.file_name())
+                        .map(|n| n.to_string_lossy().to_string())
+                        .unwrap_or_default()
+                )
+            })
+            .collect()
+    });
     flw::uninstall_virtual();
     // formats that chrono cannot parse back (or that contain a dot) are documented as unsuitable:
     // for them only "no panic" is asserted, not where the records end up
@@ -532,7 +553,8 @@ fn filespec_case(ctx: &mut CaseCtx) -> CaseResult {
     res.count("junk_files_planted", planted);
     res.nontrivial = calls > 1;
     if ctx.case < 8 || res.verdict != Verdict::Held {
-        res.sample = Some(json!({"config": cfg.to_json(), "junk": junk.iter().take(8).collect::<Vec<_>>(), "script": script}));
+        res.sample = Some(json!({"config": cfg.to_json(), "junk": junk.iter().take(8).collect::<Vec<_>>(), "script": script,
+            "fs_trace_tail": fs_trace.iter().rev().take(40).rev().collect::<Vec<_>>()}));
     }
     res
 }
